@@ -4,6 +4,7 @@ import multiprocessing as mp
 import os
 import random
 
+from common import atoms_of as common_atoms
 from common import (ATOM_NAMES, And, F, Not, Or, T, V, case_key, gen_base_hierarchy, gen_base_random, gen_formula,
                     gen_lit, gen_query, impl_infer, impl_partition, make_case, run_model, setup_impl_env)
 
@@ -83,6 +84,12 @@ def corpus_cases(weakly):
     wb = [(1, Not(f_), p_), (2, b2_, p_), (3, w_, b2_), (4, t_, b2_), (5, s2_, b2_), (6, f_, b2_)]
     alt = Or(And(And(w_, t_), Not(s2_)), And(And(Not(w_), Not(t_)), s2_))
     cs.append(make_case("corp-wignore", 6, wb, [(1, w_, And(And(p_, f_), alt)), (2, s2_, And(And(p_, f_), alt)), (3, w_, And(p_, f_))], weakly))
+    # one conditional with a three-clause consequent next to single-clause ones (lex cost-vs-cardinality seed)
+    x_, y_, z_, e_, f2_, g_, a2_, p2_, q_ = [V(i) for i in range(9)]
+    mcb = [(1, And(And(x_, y_), z_), a2_), (2, e_, a2_), (3, f2_, a2_), (4, g_, a2_), (5, And(And(Not(x_), Not(y_)), Not(z_)), p2_), (6, Not(e_), q_), (7, Not(f2_), q_)]
+    cs.append(make_case("corp-multiclause", 9, mcb, [(1, Or(x_, g_), And(a2_, Or(p2_, q_))), (2, g_, And(a2_, q_)), (3, x_, And(a2_, p2_))], weakly))
+    # redundant specialisation whose impact may be 0 (c-inference cross-pruning seed)
+    cs.append(make_case("corp-redundant", 3, [(1, V(1), V(0)), (2, V(1), And(V(0), V(2)))], [(1, Not(V(2)), And(V(0), Not(V(1)))), (2, V(2), And(V(0), Not(V(1)))), (3, V(1), V(0))], weakly))
     # unfalsifiable conditional
     cs.append(make_case("corp-unfals", 2, [(1, y, x), (2, x, x)], [(1, y, x), (2, Not(y), x), (3, x, y)], weakly))
     if weakly:
@@ -103,7 +110,11 @@ def gen_ops_cases(rng, count, weakly, max_atoms=5, max_conds=7, nq=6, prefix="g"
         n = rng.randrange(1, max_atoms + 1)
         m = rng.randrange(1, max_conds + 1)
         r = rng.random()
-        if r < 0.15 and n >= 4:
+        mc = False
+        if r < 0.12 and n >= 5:
+            base = gen_base_multiclause(rng, n, m)
+            mc = True
+        elif r < 0.24 and n >= 4:
             base = gen_base_layered(rng, n, m)
         elif r < 0.45 and n >= 2:
             base = gen_base_hierarchy(rng, n, m)
@@ -134,12 +145,48 @@ def gen_ops_cases(rng, count, weakly, max_atoms=5, max_conds=7, nq=6, prefix="g"
         for j in range(nq):
             b, a = gen_query(rng, n, extra_atom=True)
             qs.append((j + 1, b, a))
+        if mc and nq:
+            # queries over the multi-clause template: (x ; y | a, (p ; q)) and variants
+            ats = sorted({x for (_, b_, a_) in base for x in (common_atoms(b_) | common_atoms(a_))})
+            for _ in range(3):
+                xs = rng.sample(ats, min(len(ats), 4))
+                qs.append((len(qs) + 1, Or(V(xs[0]), V(xs[-1])), And(V(xs[1 % len(xs)]), Or(V(xs[2 % len(xs)]), V(xs[3 % len(xs)])))))
         # queries built from base formulas (direct inference, specificity)
         if base:
             k0 = rng.choice(base)
-            qs.append((nq + 1, k0[1], k0[2]))
+            qs.append((len(qs) + 1, k0[1], k0[2]))
             k1 = rng.choice(base)
-            qs.append((nq + 2, k0[1], And(k0[2], k1[2])))
+            qs.append((len(qs) + 1, k0[1], And(k0[2], k1[2])))
+        # a family of long left-nested conjunction queries that differ only deep inside (shared suffix of >= 5 literals
+        # over distinct atoms, repeated to reach the depth, so that the antecedents stay satisfiable)
+        if rng.random() < 0.35 and base:
+            # suffix over atoms the base does not mention (irrelevant, keeps the antecedent satisfiable), repeated to depth >= 5;
+            # heads: the antecedent of a base conditional, its negation, a strengthening - same consequent
+            fresh_atoms = [n, n + 1, n + 2]
+            lits = [V(x) if rng.random() < 0.5 else Not(V(x)) for x in fresh_atoms]
+            suffix = (lits * 3)[: rng.randrange(5, 7)]
+            kk, bb, aa = rng.choice(base)
+            heads = [aa, Not(aa), And(aa, gen_lit(rng, n))]
+            rng.shuffle(heads)
+            for h in heads:
+                cur = h
+                for l in suffix:
+                    cur = And(cur, l)
+                qs.append((len(qs) + 1, bb, cur))
+        # a redundant specialisation (B|A,C) of a conditional of the base, and queries about what falsifies a conditional
+        if base and rng.random() < 0.3:
+            kk, bb, aa = rng.choice(base)
+            extra = gen_lit(rng, n)
+            base.append((max(k for k, _, _ in base) + 1, bb, And(aa, extra)))
+            qs.append((len(qs) + 1, Not(extra), And(aa, Not(bb))))
+            qs.append((len(qs) + 1, extra, And(aa, Not(bb))))
+        if base and rng.random() < 0.4:
+            kk, bb, aa = rng.choice(base)
+            qs.append((len(qs) + 1, gen_lit(rng, n), And(aa, Not(bb))))
+        # a third of the bases get arbitrary distinct keys (sparse, 0-based, permuted): answers must not depend on them
+        if base and rng.random() < 0.33:
+            ks = rng.sample(range(0, 3 * len(base) + 4), len(base))
+            base = [(ks[j], b, a) for j, (_, b, a) in enumerate(base)]
         cases.append(make_case("%s%d" % (prefix, i), n, base, qs, weakly))
     return cases
 
@@ -168,6 +215,34 @@ def gen_base_layered(rng, n, m):
         conds.append((V(chain[0]) if rng.random() < 0.5 else Not(V(chain[0])), T))
     rng.shuffle(conds)
     return [(i + 1, b, a) for i, (b, a) in enumerate(conds)]
+
+
+def gen_base_multiclause(rng, n, m):
+    """Conditionals whose consequents are conjunctions of 2-3 literals (several soft clauses each) next to single-literal
+    ones with the same antecedent, and defeaters for them under other antecedents: correction sets whose number of
+    conditionals and number of violated clauses order differently."""
+    atoms = list(range(n))
+    rng.shuffle(atoms)
+    a, p, q = atoms[0], atoms[1 % n], atoms[2 % n]
+    props = atoms[3:] or [atoms[0]]
+    conds = []
+    k = min(len(props), rng.randrange(2, 4))
+    big = props[:k]
+    cj = V(big[0])
+    ncj = Not(V(big[0]))
+    for x in big[1:]:
+        cj = And(cj, V(x))
+        ncj = And(ncj, Not(V(x)))
+    conds.append((cj, V(a)))
+    conds.append((ncj, V(p)))
+    for x in props[k:k + 3]:
+        conds.append((V(x), V(a)))
+        if rng.random() < 0.8:
+            conds.append((Not(V(x)), V(q)))
+    while len(conds) < m:
+        conds.append((gen_lit(rng, n), gen_lit(rng, n)))
+    rng.shuffle(conds)
+    return [(i + 1, b, c) for i, (b, c) in enumerate(conds)]
 
 
 def tie_queries(rng, case, part, count=3):
